@@ -8,6 +8,7 @@ import (
 	"fmt"
 	"os"
 	"path/filepath"
+	"regexp"
 	"sort"
 	"strconv"
 	"strings"
@@ -620,9 +621,16 @@ func traceMode(t *testing.T, p *Prop) {
 		for _, d := range res.Trace {
 			fmt.Fprintf(h, "%s/%d/%d/%s;", d.K, d.N, d.C, d.L)
 		}
+		if dd := os.Getenv("VERIF_TRACE_DUMP"); dd != "" {
+			var b strings.Builder
+			for j, d := range res.Trace {
+				fmt.Fprintf(&b, "%d %s/%d/%d %s\n", j, d.K, d.N, d.C, d.L)
+			}
+			_ = os.WriteFile(fmt.Sprintf("%s/trace-%d-%d.txt", dd, os.Getpid(), i), []byte(b.String()), 0o644)
+		}
 		keys := []string{}
 		for k, v := range res.Info {
-			keys = append(keys, fmt.Sprintf("%s=%v", k, v))
+			keys = append(keys, scrubRunDir(fmt.Sprintf("%s=%v", k, v)))
 		}
 		sort.Strings(keys)
 		fmt.Printf("TRACE prop=%s i=%d seed=%d steps=%d decisions=%d fake_ns=%d sched=%x tracehash=%s class=%q aborted=%q info=%s\n",
@@ -660,3 +668,9 @@ func detDiff(t *testing.T, p *Prop) {
 	}
 	fmt.Println("traces identical up to the shorter length", len(a), len(b))
 }
+
+var runDirRe = regexp.MustCompile(`dsim-w-\d+-\d+`)
+
+// scrubRunDir removes the per-process part of the run directory from a string
+// that is compared across processes by the determinism self-test.
+func scrubRunDir(s string) string { return runDirRe.ReplaceAllString(s, "dsim-w-*") }
